@@ -159,16 +159,18 @@ class TrioEventLoop(EventLoop):
             True if the scope was cancelled, False if it was cancelled already
             before invoking this function
         """
-        if self._nursery is None:
-            # not running: the task has not been started yet (and a scope cannot be cancelled outside Trio)
-            for index, (_task, pending_scope, _args) in enumerate(self._pending_tasks):
-                if pending_scope is scope:
-                    del self._pending_tasks[index]
-                    return True
-            return False
+        for index, (_task, pending_scope, _args) in enumerate(self._pending_tasks):
+            if pending_scope is scope:
+                # not started yet: a scope that was never entered cannot be cancelled outside Trio
+                del self._pending_tasks[index]
+                return True
 
-        existed = not scope.cancel_called
-        scope.cancel()
+        try:
+            existed = not scope.cancel_called
+            scope.cancel()
+        except RuntimeError:
+            # never entered and no longer pending: it has been removed before
+            return False
         return existed
 
     def run(self) -> None:
